@@ -29,17 +29,17 @@ func (c call) forReplay() call {
 }
 
 type replay12 struct {
-	Seed      int64  `json:"seed"`
-	Case      int    `json:"case"`
-	Sender    cfg    `json:"sender"`
-	Receiver  cfg    `json:"receiver"`
-	Calls     []call `json:"calls"`
-	Spliced   string `json:"spliced_control_frames,omitempty"`
-	SegKind   string `json:"segmentation,omitempty"`
-	Cuts      string `json:"cuts,omitempty"`
-	WireLen   int    `json:"wire_len"`
-	WireHex   string `json:"wire_hex,omitempty"`
-	HowToRun  string `json:"how_to_run"`
+	Seed     int64  `json:"seed"`
+	Case     int    `json:"case"`
+	Sender   cfg    `json:"sender"`
+	Receiver cfg    `json:"receiver"`
+	Calls    []call `json:"calls"`
+	Spliced  string `json:"spliced_control_frames,omitempty"`
+	SegKind  string `json:"segmentation,omitempty"`
+	Cuts     string `json:"cuts,omitempty"`
+	WireLen  int    `json:"wire_len"`
+	WireHex  string `json:"wire_hex,omitempty"`
+	HowToRun string `json:"how_to_run"`
 }
 
 func contentFor(t int, n int) ([]byte, string) {
@@ -191,7 +191,7 @@ func part12(n int) {
 		if rng.Intn(3) == 0 && !big {
 			var w2 []byte
 			for i, c := range calls {
-				for j, f := range perCall[i] {
+				for j := range perCall[i] {
 					if j > 0 && rng.Intn(2) == 0 {
 						pf := rawFrame{Fin: true, Op: pick(9, 9, 10), Masked: senderClient, Key: randBytes(4), Payload: randBytes(pick(0, 3, 125))}
 						w2 = append(w2, pf.encode()...)
@@ -200,7 +200,6 @@ func part12(n int) {
 						}
 						spliced += fmt.Sprintf("[call %d before fragment %d: %s] ", i, j, pf.String())
 					}
-					_ = f
 					w2 = append(w2, sep.writes[frameIndex(perCall, i, j)]...)
 				}
 				if c.T == 9 {
@@ -239,10 +238,9 @@ func part12(n int) {
 				break
 			}
 			caseNo++
-			rp.SegKind, rp.Cuts = sg.Kind, sprintCuts(sg.Cuts)
+			rp.SegKind = sg.Kind
 			rep.Ops += len(sg.Cuts) + 1
 			rep_ := rp
-			rep.Ops++
 			rep_.Cuts = fmt.Sprint(sg.Cuts)
 			if len(sg.Cuts) > 200 {
 				rep_.Cuts = sprintCuts(sg.Cuts)
